@@ -19,6 +19,12 @@ Call histories (spec/BinCalls.tla, spec/MC_BinCalls.tla, harness/fx_bincalls.py)
       long-lived binner per TLC-generated sequence of calls; after every call the result is the statement's for the
       values SUPPLIED, every array handed over is unchanged, and what earlier calls returned is unchanged; four design
       mutants refuted, canary on the harness's own mutants of the real binners.
+Routes (spec/BinRoutes.tla, spec/MC_BinRoutes.tla, harness/fx_binroutes.py): the model output carried to the binner by EVERY public
+      route -- bindown without widths / with the widths of the documented recipe / 2-D, bin_model, the output writer's
+      binned_spectrum and binned_tau in every output size, taurex.util.bindown, binners built positionally / by keyword / by an
+      observation's create_binner -- on uniform AND non-uniform native points, with TLC's exact values for the native bins derived
+      from the mid-points (both readings of the derived bin), four slips of one route refuted, canary on the harness's own mutants;
+      binding B re-derives the value of the derived-width routes exactly on realistic constant-R / logarithmic / jittered grids.
 """
 import itertools
 import math
@@ -30,6 +36,7 @@ from concurrent.futures import ThreadPoolExecutor
 
 from ..core import Machinery, frac, close, validate_trace, run_tlc
 from .. import fx_bincalls as BC
+from .. import fx_binroutes as BR
 
 REL = 1e-12
 LATTICES = [(100.0, 0.25), (7.0, 0.5), (2048.0, 4.0)]
@@ -419,6 +426,9 @@ def one_vector(ctx, v):
     if v['kind'] == 'calls':
         replay_calls(ctx, v)
         return
+    if v['kind'] == 'route':
+        BR.replay_vector(ctx, v)
+        return
     lat = tuple(v['lat'])
     if v['kind'] == 'flux':
         judge_flux(ctx, v, lat, v['perm'], v['mode'])
@@ -649,8 +659,8 @@ def rel_events(rng, ncalls, events, calls):
         p = np.array(p)
         fb = FluxBinner(tc, tw)
         fa, ga = np.array(f, float), np.array(g, float)
-        call = dict(kind='rel', cs=cs, tg=tg, lat=[x0, u], f=f, g=g, a=a, b=b, c0=c0, perm=p.tolist(), style=style)
         ci = len(calls)
+        call = dict(kind='rel', cs=cs, tg=tg, lat=[x0, u], f=f, g=g, a=a, b=b, c0=c0, perm=p.tolist(), style=style, ci=ci)
         calls.append(call)
         try:
             if n >= 3 and rng.random() < 0.6:
@@ -668,21 +678,47 @@ def rel_events(rng, ncalls, events, calls):
             rg = fb.bindown(c, ga)[1]
             rh = fb.bindown(c, a * fa + b * ga)[1]
             rp = fb.bindown(c[p], fa[p])[1]
+            ro, rt = rel_routes(fb, c, fa, ga, ci)
         except Exception as ex:
             call['exception'] = repr(ex)
-            rc = rf = rg = rh = rp = np.full(len(tg), np.nan)
+            rc = rf = rg = rh = rp = ro = rt = np.full(len(tg), np.nan)
         stg = sorted(tg, key=lambda t: t[0] + t[1])
+        ordered = derived_ordered(cs)
         for k, tb in enumerate(stg):
-            ev = rel_event(cs, tb, f, [float(x[k]) for x in (rc, rf, rg, rh, rp)], a, b, c0)
+            ev = rel_event(cs, tb, f, [float(x[k]) for x in (rc, rf, rg, rh, rp, ro, rt)], a, b, c0, ordered)
             if ev is None:
                 skipped += 1
                 continue
-            ev.update(id=len(events), call=ci, k=k, cls='flux:derived:%s' % style)
+            ev.update(id=len(events), call=ci, k=k, cls='flux:derived:%s:out=%s' % (style, BR.SIZES[ci % 4]))
             events.append(ev)
     return skipped
 
 
-def rel_event(cs, tb, f, res, a, b, c0):
+def rel_routes(fb, c, fa, ga, ci):
+    """the same values carried to the binner by the output writer: (binned_spectrum, the row of binned_tau that holds them); in an
+    output without optical depths the 2-D route is taken through bindown"""
+    tau = np.vstack([ga, fa])
+    d = fb.generate_spectrum_output((c, fa, tau, None), **BR.size_arg(BR.SIZES[ci % 4]))
+    ro = np.asarray(d['binned_spectrum'], dtype=float)
+    rt = np.asarray(d['binned_tau'] if 'binned_tau' in d else fb.bindown(c, tau)[1], dtype=float)
+    if ro.ndim != 1 or rt.ndim != 2 or rt.shape[0] != 2:
+        raise ValueError('output route returned shapes %r / %r' % (ro.shape, rt.shape))
+    return ro, rt[1]
+
+
+def derived_ordered(cs):
+    """are the native bins derived from the points (centre -/+ half the mid-point width) ordered: lower and upper edges ascending
+    over the WHOLE grid (the quantifier's "ordered bins"; a jittered grid can fail this, and the binner's binary searches are
+    only meaningful on ordered edges)"""
+    n = len(cs)
+    nl = [2 * cs[0] - cs[1]] + list(cs[:-1])
+    nr = list(cs[1:]) + [2 * cs[-1] - cs[-2]]
+    lo = [4 * cs[i] - (nr[i] - nl[i]) for i in range(n)]
+    hi = [4 * cs[i] + (nr[i] - nl[i]) for i in range(n)]
+    return all(lo[i] < lo[i + 1] and hi[i] < hi[i + 1] for i in range(n - 1))
+
+
+def rel_event(cs, tb, f, res, a, b, c0, ordered=False):
     n = len(cs)
     t4 = (4 * tb[0], 4 * tb[1])
     hull = [i for i in range(n) if min(union_bin4(cs, i, True, True)[1], t4[1]) - max(union_bin4(cs, i, True, True)[0], t4[0]) > 0]
@@ -695,9 +731,12 @@ def rel_event(cs, tb, f, res, a, b, c0):
     off = tb[0]
     isnum = all(finite(x) and abs(x) < 1e5 for x in res)
     ms = [int(round(x * S_VAL)) if isnum else 0 for x in res]
+    # exact value of the derived-width routes: in 4x coordinates the overlap lengths sum to at most twice the target's length
+    # (derived bins of neighbours may overlap); m * denominator and numerator * S must stay below 2^30 (SafeClose)
+    chkx = ordered and isnum and 2 * 4 * (tb[1] - tb[0]) * 1000 * S_VAL < LIM
     return dict(kind='rel', cs=[cs[i] - off for i in range(a0, z0 + 1)], f=[f[i] for i in range(a0, z0 + 1)],
-                tgt=[0, tb[1] - tb[0]], lend=lend, rend=rend, isnum=bool(isnum),
-                mc=ms[0], mf=ms[1], mg=ms[2], mh=ms[3], mp=ms[4], c=c0, a=a, b=b, S=S_VAL, tol=2, got=repr(res))
+                tgt=[0, tb[1] - tb[0]], lend=lend, rend=rend, isnum=bool(isnum), chkx=bool(chkx),
+                mc=ms[0], mf=ms[1], mg=ms[2], mh=ms[3], mp=ms[4], mo=ms[5], mt=ms[6], c=c0, a=a, b=b, S=S_VAL, tol=2, got=repr(res))
 
 
 def hist_events(rng, ncalls, events, calls):
@@ -773,12 +812,14 @@ def run_traces(ctx, nval, nrel, nhist):
             ctx.verdict('binner_is_stateless', c_['history_ok'], cls='flux:derived:%s:%s' % (c_['style'], 'reused' if c_.get('reused') else 'fresh'),
                         detail=c_.get('history_detail', ''), vector=dict(trace=True, call=c_, k=None, event=None))
     ctx.add_sample(dict(trace_event=slim(events[0])))
-    ctx.note('trace events %r from %d real calls; %d+%d target bins skipped (window larger than the 32-bit budget)'
-             % (counts, len(calls), sk1, sk2))
+    ctx.note('trace events %r from %d real calls; %d+%d target bins skipped (window larger than the 32-bit budget); '
+             'derived-width routes (bin_model, shuffled bindown, output binned_spectrum / binned_tau) compared with the exact value in %d of the rel events'
+             % (counts, len(calls), sk1, sk2, sum(1 for e in events if e['kind'] == 'rel' and e.get('chkx'))))
     # canary: corrupt one logged field of accepted events of each kind; TLC must reject exactly those
     can = []
-    for kind, field in (('val', 'm'), ('rel', 'mp'), ('hist', 'm')):
+    for kind, field in (('val', 'm'), ('rel', 'mp'), ('hist', 'm'), ('rel', 'mo'), ('rel', 'mt')):
         good = [e for e in events if e['kind'] == kind and e['id'] not in bad and e['isnum'] and e.get(field, 0) > 5
+                and (field not in ('mo', 'mt') or e['chkx'])
                 and (kind != 'val' or sum(max(0, min(b[1], e['tgt'][1]) - max(b[0], 0)) for b in e['nat']) > 0)]
         if kind == 'rel':
             good = [e for e in good if rel_core(e)]
@@ -801,6 +842,7 @@ def run_traces(ctx, nval, nrel, nhist):
 # TLC runs of the presentation / call-history specs (started first, collected when needed)
 # ----------------------------------------------------------------------------
 PRES_SLIPS = ('widthlike', 'outlike')
+ROUTE_SLIPS = ('otherunit', 'firstwidth', 'fluxfortau', 'unsortedwidth')
 CALL_MUTANTS = (('sqinplace', 'RefuteSqInPlace'), ('sortargs', 'RefuteSortArgs'), ('sortctor', 'RefuteSortCtor'),
                 ('outbuffer', 'RefuteOutBuffer'))
 
@@ -814,6 +856,11 @@ def start_background(ctx):
         jobs[label] = pool.submit(run_tlc, module, cfg, **kw)
     sub('presentation-export', 'MC_BinPres', 'EX_BinPres_%s.cfg' % ctx.tier, workers=1)
     sub('calls-pairs', 'MC_BinCalls', 'EX_BinCalls_pairs%s.cfg' % ('' if q else '_thorough'), workers=1)
+    sub('routes-export', 'MC_BinRoutes', 'EX_BinRoutes_%s.cfg' % ctx.tier, workers=1)
+    # expected counterexamples of the route dimension: the class of the slip behind the dimension in both tiers, the others in the
+    # thorough tier (the quick tier takes them from the export run: TLC lists, per vector, the routes on which each slip shows)
+    for v in (ROUTE_SLIPS[:1] if q else ROUTE_SLIPS):
+        sub('refute-routes-' + v, 'MC_BinRoutes', 'MC_BinRoutes_ref_%s.cfg' % v, workers=1, allow_violation=True)
     if not q:
         # explicit expected counterexamples (the quick tier takes them from the export runs: TLC lists, per exported input /
         # sequence, the slips and design mutants it exposes, and the driver insists that each is exposed)
@@ -869,6 +916,16 @@ def run_call_histories(ctx, bg):
                 ', '.join('%s/%s:%d' % (k[0], k[1], len(v)) for k, v in sorted(exposing.items()))))
 
 
+def run_routes(ctx, bg):
+    res = collect(ctx, bg, 'routes-export')
+    vecs = dedupe(res.tagged('RVEC'))
+    if not vecs:
+        raise Machinery('no route vectors exported')
+    for v in (ROUTE_SLIPS[:1] if ctx.tier == 'quick' else ROUTE_SLIPS):
+        collect(ctx, bg, 'refute-routes-' + v, refuted='RouteRefinesDef')
+    BR.canary(ctx, BR.run_vectors(ctx, vecs))
+
+
 _CALLS_ALPH = {}
 
 
@@ -908,7 +965,12 @@ def run(ctx):
                      '; every legal storage type (int / float) of centres, widths, spectrum, noise and every legal form of the widths (array / scalar / omitted)',
         call_histories=('every pair of calls sharing a native grid or the long-lived binner' if q else 'every pair of calls on 3 grids + 600 random sequences of 5 calls') +
                        '; flux / histogram / identity binner; caller arrays stored ascending / descending / mixed; arrays themselves or re-arranged copies; '
-                       'long-lived or newly built binner; widths explicit / derived; noise; 1-D / 2-D')
+                       'long-lived or newly built binner; widths explicit / derived; noise; 1-D / 2-D',
+        routes=('2-3 native points on 0..4 (uniform and non-uniform spacing), 1 target bin on -1..6 or 2 target bins (both orders), one generic model output'
+                if q else '2-4 native points on 0..5, 1-2 target bins, constant and generic model output') +
+               '; every public route (bindown without widths / with the recipe\'s widths / 2-D, bin_model, output binned_spectrum + binned_tau in the '
+               'sizes lighter / light / heavy / default, taurex.util.bindown 1-D / 2-D, NativeBinner output), binner built positionally / by keyword / '
+               'by an observation\'s create_binner, points handed over ascending / descending / mixed; 4 dyadic lattices')
     ctx.assumptions = [
         'numpy float64 arithmetic on dyadic lattice coordinates is exact for centres, widths and overlaps',
         'target bins have distinct centres and positive width; native bins ordered and non-overlapping (property quantifier)',
@@ -916,7 +978,11 @@ def run(ctx):
         'derived widths on non-uniform grids: only constant / bounds / linear / order clauses (two readings of the native bin)',
         'TLC + CommunityModules Json/IOUtils; harness window selection is re-checked by TLC (WindowComplete)',
         'a call does not write to the arrays it is handed and later calls see the values the caller supplied (the statement says what binning RETURNS for them)',
-        'integer storage of a grid / spectrum is a presentation of the same numbers; float32 is not exercised']
+        'integer storage of a grid / spectrum is a presentation of the same numbers; float32 is not exercised',
+        'routes that are not handed native widths: the native bin of a point is derived from the mid-points to its neighbours (end edges mirrored); '
+        'both readings of the derived bin (centre -/+ half the mid-point width; mid-point to mid-point) are accepted, consistently over one call; '
+        'the derived bins must be ordered (lower and upper edges ascending), as they are on constant-R, linear and logarithmic grids',
+        'an output of size lighter holds no optical depths: nothing is judged for binned_tau when the key is absent']
     bg = start_background(ctx)       # TLC runs of the presentation / call-history specs, concurrent with the ones below
     for c in ('geo', 'val', 'multi'):
         ctx.check_spec('exhaustive-' + c, 'MC_Binning', 'MC_Binning_%s_%s.cfg' % (c, t))
@@ -946,6 +1012,7 @@ def run(ctx):
     ctx.note('vectors: %d flux (<=3 bins), %d flux (4 bins), %d multi-target/simple/native' % (len(v3), len(v4), len(vm)))
     run_presentation(ctx, collect_presentation(ctx, bg), rng)
     run_call_histories(ctx, bg)
+    run_routes(ctx, bg)
     if q:
         run_traces(ctx, 60, 40, 60)
     else:
@@ -987,9 +1054,9 @@ def replay_trace(ctx, vec):
         p = np.array(call['perm'])
         fb = FluxBinner(tc, tw)
         r = [fb.bindown(c, np.full(len(cs), float(call['c0'])))[1], fb.bin_model((c, fa, None, None))[1], fb.bindown(c, ga)[1],
-             fb.bindown(c, call['a'] * fa + call['b'] * ga)[1], fb.bindown(c[p], fa[p])[1]]
+             fb.bindown(c, call['a'] * fa + call['b'] * ga)[1], fb.bindown(c[p], fa[p])[1]] + list(rel_routes(fb, c, fa, ga, call.get('ci', 0)))
         tb = sorted(tg, key=lambda t: t[0] + t[1])[k]
-        ev = rel_event(cs, tb, call['f'], [float(x[k]) for x in r], call['a'], call['b'], call['c0'])
+        ev = rel_event(cs, tb, call['f'], [float(x[k]) for x in r], call['a'], call['b'], call['c0'], derived_ordered(cs))
         clause = 'trace_derived_width_clauses'
     else:
         ev = dict(vec['event'])
